@@ -36,7 +36,10 @@ def leaf_raw_moment(n, k):
     if isinstance(n, Isotonic):
         br = [Fraction(float(t)) for t in n.breaks]
         d = [Fraction(float(t)) for t in n.densities]
-        z = sum(di * (br[i + 1] - br[i]) for i, di in enumerate(d))
+        w = [br[i + 1] - br[i] for i in range(len(d))]
+        if np.allclose([float(t) for t in w], float(w[0])):       # SciPy reads the numbers as counts when the widths are (nearly) equal
+            d = [di / wi for di, wi in zip(d, w)]
+        z = sum(di * wi for di, wi in zip(d, w))
         return sum((di / z) * (br[i + 1] ** (k + 1) - br[i] ** (k + 1)) / (k + 1) for i, di in enumerate(d))
     raise Infra('leaf_raw_moment')
 
